@@ -21,9 +21,8 @@ Definition enc (e : event) : list N :=
   [k; a; depth c; g_nest c; nlen (cycles c); nlen (concat (cycles c)); (if flag c then 1 else 0); nlen (exceeded c);
    nlen (stack c); nlen (states c); nlen (parsed c); fst (hsnap c); snd (hsnap c)].
 
-(* input: configured depth limit, top-level items in execution order, truncated?,
-   declared top-level aliases (name, target) *)
-Record input := { i_md : N; i_tops : list call; i_trunc : bool; i_alias : list (str * str) }.
+(* input: configured depth limit, top-level items in execution order, truncated? *)
+Record input := { i_md : N; i_tops : list call; i_trunc : bool }.
 
 Definition obs := (bool * list (list N))%type.
 
@@ -35,13 +34,10 @@ Definition nl_eqb := list_eqb (list_eqb N.eqb).
 Definition obs_eqb (m o : obs) : bool :=
   if fst m then nl_eqb (firstn (length (snd o)) (snd m)) (snd o) else nl_eqb (snd m) (snd o).
 
-(* F08c: a declared schema that is nothing but a $ref to another declared schema *)
-Definition guard_F08c (i : input) : bool :=
-  forallb (fun p => str_eqb (fst p) (snd p)) (i_alias i).
-
+(* guard conjuncts: 1 = F08a (true nesting within the limit), 2 = F08b (no fall-through),
+   3 = no empty schema name reaches the tracker (F08d, fixed in the loader: must always hold now) *)
 Definition guards (i : input) : list bool :=
-  [guard_F08a (i_md i) (i_tops i); guard_F08b (i_md i) (i_tops i); guard_F08c i;
-   forallb names_truthy (i_tops i)].
+  [guard_F08a (i_md i) (i_tops i); guard_F08b (i_md i) (i_tops i); forallb names_truthy (i_tops i)].
 
 Definition run (cases : list (input * obs)) : list N := report obs_eqb model_obs guards cases.
 
